@@ -1188,6 +1188,15 @@ class LangServer:
             return None
         # Only linkable objects (procedure bindings, interface members) carry a link
         impl_obj = getattr(var_obj, "link_obj", None)
+        # The link of a module procedure prototype is set by the submodule that
+        # implements it, ignore it if that file has been removed or re-parsed since
+        if impl_obj is not None:
+            impl_file = impl_obj.file_ast.file
+            if (impl_file is not None) and (
+                self.workspace.get(impl_file.path) is not impl_file
+                or impl_file.ast is not impl_obj.file_ast
+            ):
+                impl_obj = None
         # Construct implementation reference
         if var_obj.parent.get_type() == CLASS_TYPE_ID:
             if (impl_obj is not None) and (impl_obj.file_ast.file is not None):
